@@ -1,4 +1,5 @@
 "C16 — scanners and matchers are total and report only well-formed ranges"
+import os
 from hypothesis import strategies as st
 from vlib import core, alphabets as A
 from vlib.core import guard
@@ -384,3 +385,36 @@ def run(ctx):
     ctx.run_parallel('shard_truncations')
     ctx.run_parallel('shard_mutants', extra=(ctx.pick(400, 8000),))
     ctx.run_parallel('shard_hyp', extra=(ctx.pick(150, 4000),))
+    if ctx.thorough or os.environ.get('VERIF_FUZZ'):
+        ctx.run_atheris('html', ctx.pick(600, 12000))
+        ctx.run_atheris('css', ctx.pick(600, 12000))
+
+
+# coverage-guided layer (thorough tier). html: byte 0 bit 0 = XML mode, the rest is the document; css: all bytes are the document.
+# Every position −1..len+1 and every entry point is exercised by the check function itself.
+def _fz_html(data):
+    if not data:
+        return None
+    from vlib.fuzz import text_of
+    return {'src': text_of(data[1:]), 'xml': bool(data[0] & 1)}
+
+
+def _fz_css(data):
+    from vlib.fuzz import text_of
+    return {'src': text_of(data)}
+
+
+def _fz_html_seeds():
+    for i, s in enumerate(sample_docs()[0]):
+        if len(s) <= 120:
+            yield bytes([i & 1]) + s.encode('utf-8')
+
+
+def _fz_css_seeds():
+    for s in sample_docs()[1]:
+        if len(s) <= 120:
+            yield s.encode('utf-8')
+
+
+FUZZ = {'html': {'decode': _fz_html, 'seeds': _fz_html_seeds, 'max_len': 40, 'dict': A.HTML_TOKENS + ['<a>', '</a>', '<b ', '/>', '="', "='", '<script>', '</script>', '<style>', '</style>', '<!--', '-->']},
+        'css': {'decode': _fz_css, 'seeds': _fz_css_seeds, 'max_len': 40, 'dict': A.CSS_TOKENS + ['a{', 'b:c;', '/*', '*/', '\\"', 'url(', '@media']}}
